@@ -931,6 +931,28 @@ func (e *specEnv) call(n *ast.CallExpr) Val {
 					imp(le(bv, e.t.top(e.old)), eq(sel(cur, bv), sel(old, bv))), cur, bv))
 			}
 			return Val{tBool, []string{and(fs...)}}
+		case "preservedobjs":
+			// preservedobjs(T): every object of struct type T that existed in the pre-state has all its fields unchanged
+			T := e.typeExpr(n.Args[0])
+			if T == nil || !isStruct(T) {
+				e.errorf("preservedobjs: not a struct type")
+				return Val{tBool, []string{"true"}}
+			}
+			var l location
+			e.t.collectStructHeaps(T, &l)
+			var fs []string
+			for i, hn := range l.heaps {
+				cur := e.t.heapGet(e.cur, hn, l.sorts[i])
+				old := e.t.heapGet(e.old, hn, l.sorts[i])
+				if cur == old {
+					continue
+				}
+				e.t.nfr++
+				bv := q(fmt.Sprintf("po!q%d", e.t.nfr))
+				fs = append(fs, fmt.Sprintf("(forall ((%s Int)) (! %s :pattern ((select %s %s))))", bv,
+					imp(isOldRef(bv, e.t.top(e.old)), eq(sel(cur, bv), sel(old, bv))), cur, bv))
+			}
+			return Val{tBool, []string{and(fs...)}}
 		case "preservedmaps":
 			// preservedmaps(m): every map (of m's type) that existed in the pre-state is unchanged
 			mv := e.eval(n.Args[0])
